@@ -279,7 +279,7 @@ def r4_fields(ctx):
     rk = set.intersection(*[ks for _, _, ks in refs])
     rfile, rref = _read_keys(corpus)
     ctx.floor('C01.R4', 'keys read from file records', len(rfile), 3)
-    ctx.floor('C01.R4', 'keys read from chunk references', len(rref), 3)
+    ctx.floor('C01.R4', 'keys read from chunk references', len(rref), 2)
     for k, (f, n) in sorted(rfile.items()):
         ctx.check(k in fk, 'C01.R4', f'{func_label(f)}|file-key-written:{k}', loc(f, n), f'file-record key {k!r} read by {f.name} is written by snapshot', f'{f.name} reads file-record key {k!r} which snapshot does not write (written: {sorted(fk)})')
     for k, (f, n) in sorted(rref.items()):
@@ -362,6 +362,26 @@ FS_MUTATORS = {'open', 'mkdir', 'write_bytes', 'write_text', 'unlink', 'replace'
 FS_FUNCS = {'os.utime', 'os.remove', 'os.unlink', 'os.rename', 'os.replace', 'os.makedirs', 'os.mkdir', 'shutil.move', 'shutil.copy', 'shutil.copyfile', 'shutil.rmtree', 'os.chmod', 'os.truncate'}
 
 
+def _rooted_at_target(t):
+    """t is Path(<restore target>, *parts) possibly followed by .resolve() / .parent"""
+    while True:
+        if t[0] == 'attr' and t[2] == 'parent':
+            t = t[1]
+        elif t[0] == 'call' and t[1][0] == 'attr' and t[1][2] in ('resolve', 'absolute') :
+            t = t[1][1]
+        else:
+            break
+    if t[0] == 'alt':
+        return all(_rooted_at_target(a) for a in t[1])
+    if not (t[0] == 'call' and t[1] == ('name', 'pathlib.Path') and t[2]):
+        return False
+    first = t[2][0]
+    return all(
+        contains(f, lambda z: z == ('param', 'path')) or (contains(f, lambda z: z[0] == 'call' and z[1] == ('name', 'pathlib.Path') and not z[2]))
+        for f in alts(first)
+    )
+
+
 def _is_cache_path(t):
     while t[0] == 'attr' and t[2] == 'parent':
         t = t[1]
@@ -388,6 +408,13 @@ def r6_confinement(ctx):
                 if e.method == 'truncate' and not contains(e.receiver, lambda y: y[0] == 'call' and y[1][0] == 'attr' and y[1][2] == 'open'):
                     continue
                 tgt, what = e.receiver, e.method
+                if e.method == 'truncate':
+                    # file object obtained from <path>.open(...): the target is that path
+                    opens = [x for a in alts(tgt) for x in [a] if a[0] == 'call' and a[1][0] == 'attr' and a[1][2] == 'open']
+                    if opens and len(opens) == len(alts(tgt)):
+                        from ..terms import alt as _alt
+
+                        tgt = _alt(*[o[1][1] for o in opens])
             elif e.callee[0] == 'name' and e.callee[1] in FS_FUNCS and e.args:
                 tgt, what = e.args[0], e.callee[1]
             if tgt is None:
@@ -395,10 +422,7 @@ def r6_confinement(ctx):
             if _is_cache_path(tgt) or (tgt[0] == 'call' and tgt[1] == ('name', 'io.BytesIO')):
                 continue
             n += 1
-            inside = all(
-                contains(a, lambda y: y[0] == 'call' and y[1] == ('name', 'pathlib.Path') and y[2] and contains(y[2][0], lambda z: z == ('param', 'path') or (z[0] == 'call' and z[1] == ('name', 'pathlib.Path') and not z[2])))
-                for a in alts(tgt)
-            )
+            inside = all(_rooted_at_target(a) for a in alts(tgt))
             ctx.check(
                 inside,
                 'C01.R6',
